@@ -9,6 +9,7 @@ import (
 	"sync/atomic"
 	"time"
 
+	badger "github.com/dgraph-io/badger/v4"
 	"github.com/dgraph-io/badger/v4/y"
 	"github.com/dgraph-io/ristretto/v2/z"
 
@@ -160,6 +161,132 @@ func watermarkRound(c *core.Ctx, round int, nWorkers, nIdx int, dup bool) {
 	}
 }
 
+// watermarkStopRound: once the closer handed to Init has been signalled (badger: oracle.Stop in
+// DB.Close) nothing processes marks any more, so Begin/Done/WaitForMark must not block their callers.
+// The verdict is state-based: closer.Wait() has returned, hence no further progress is possible and
+// a call still blocked 10 s later is stuck for good.
+func watermarkStopRound(c *core.Ctx, round int) {
+	r := c.Rand(fmt.Sprintf("c34-stop-%d", round))
+	closer := z.NewCloser(1)
+	w := &y.WaterMark{Name: "verif-stop"}
+	w.Init(closer)
+	pending := 1 + r.Intn(5)
+	for i := 1; i <= pending; i++ {
+		w.Begin(uint64(i))
+	}
+	var early sync.WaitGroup // waiters that are already parked when the closer is signalled
+	var blocked atomic.Int64
+	var wrongNil atomic.Int64
+	wait := func(wg *sync.WaitGroup, idx uint64) {
+		wg.Add(1)
+		blocked.Add(1)
+		go func() {
+			defer wg.Done()
+			err := w.WaitForMark(context.Background(), idx)
+			blocked.Add(-1)
+			if err == nil && w.DoneUntil() < idx {
+				wrongNil.Add(1)
+			}
+		}()
+	}
+	for i := 0; i < 1+r.Intn(4); i++ {
+		wait(&early, uint64(1+r.Intn(pending)))
+	}
+	time.Sleep(time.Duration(r.Intn(300)) * time.Microsecond)
+	closer.SignalAndWait()
+	var late sync.WaitGroup
+	n := 150 + r.Intn(200) // more than the 100-slot mark channel holds
+	for g := 0; g < 4; g++ {
+		late.Add(1)
+		blocked.Add(1)
+		go func(g int) {
+			defer late.Done()
+			for i := 0; i < n; i++ {
+				idx := uint64(pending + 1 + g*n + i)
+				w.Begin(idx)
+				w.Done(idx)
+			}
+			blocked.Add(-1)
+		}(g)
+	}
+	for i := 0; i < 3; i++ {
+		wait(&late, uint64(1+r.Intn(pending)))
+	}
+	okEarly := waitTimeout(&early, 10*time.Second)
+	okLate := waitTimeout(&late, 10*time.Second)
+	c.Eval(1)
+	c.Count("wm.stop_rounds", 1)
+	if !okEarly || !okLate {
+		c.Violation("C34|watermark|blocked-after-stop", fmt.Sprintf("%d watermark calls (Begin/Done/WaitForMark) are still blocked 10 s after the closer was signalled and the processing goroutine exited", blocked.Load()),
+			map[string]any{"pending_indices": pending, "marks_after_stop": 8 * n, "waiters_parked_before_stop_released": okEarly})
+	}
+	if wrongNil.Load() > 0 {
+		c.Violation("C34|watermark|early-wakeup", "WaitForMark returned nil after the closer was signalled although the index was not done", map[string]any{"pending_indices": pending})
+	}
+	c.Distinct("watermark-stop")
+}
+
+// closeRaceRound: transactions started while Close is completing must return (C34: a reader is
+// always released once every commit at or below its timestamp has finished; here the commits have
+// finished - refused with ErrBlockedWrites - but the oracle was stopped).
+func closeRaceRound(c *core.Ctx, work string, round int) {
+	r := c.Rand(fmt.Sprintf("c34-close-%d", round))
+	dir := fmt.Sprintf("%s/close%d", work, round)
+	_ = os.MkdirAll(dir, 0o755)
+	defer os.RemoveAll(dir)
+	ov := hist.SmallOptions(dir, 0, r)
+	db, err := badger.Open(ov.Opt)
+	if err != nil {
+		c.Inconclusive("open: " + err.Error())
+		return
+	}
+	var closed atomic.Bool
+	var wg sync.WaitGroup
+	var afterClose, refused atomic.Int64
+	for g := 0; g < 8; g++ {
+		wg.Add(1)
+		go func(g int) {
+			defer wg.Done()
+			defer func() { _ = recover() }() // a panic in a call racing with Close is C38's business
+			for n := 0; !closed.Load(); n++ {
+				txn := db.NewTransaction(true)
+				_ = txn.Set([]byte{byte('a' + g)}, []byte(fmt.Sprintf("v%d", n)))
+				if err := txn.Commit(); err != nil {
+					refused.Add(1)
+				}
+				txn.Discard()
+				if db.IsClosed() {
+					afterClose.Add(1)
+				}
+			}
+		}(g)
+	}
+	time.Sleep(time.Duration(2+r.Intn(30)) * time.Millisecond)
+	cerr := make(chan error, 1)
+	go func() { cerr <- db.Close() }()
+	select {
+	case <-cerr:
+	case <-time.After(60 * time.Second):
+		c.Inconclusive("Close did not return within 60 s (C38 decides)")
+		return
+	}
+	time.Sleep(time.Duration(r.Intn(2000)) * time.Microsecond) // calls keep arriving for a moment, as they would from callers not synchronised with Close
+	closed.Store(true)
+	c.Eval(1)
+	c.Count("close.rounds", 1)
+	c.Count("close.calls_overlapping_close", afterClose.Load())
+	c.Count("close.commits_refused", refused.Load())
+	if !waitTimeout(&wg, 20*time.Second) {
+		buf := make([]byte, 4<<20)
+		buf = buf[:runtime.Stack(buf, true)]
+		c.Violation("C34|oracle|reader-stranded-by-close", "transactions started while Close was completing are still blocked 20 s after Close returned although every commit has finished (refused or applied)",
+			map[string]any{"dump": string(buf[:min(len(buf), 20000)])})
+	}
+	if afterClose.Load() > 0 {
+		c.Distinct("close-race")
+	}
+}
+
 func firstWords(s string) string {
 	switch {
 	case len(s) > 10 && s[:10] == "DoneUntil(":
@@ -179,7 +306,8 @@ func C34(c *core.Ctx) {
 		"Dones is a violation; waiters must return (and only once DoneUntil >= index), a waiter still blocked 20 s after everything was done is a lost wake-up; (ii) recorded " +
 		"histories of many small commits and transaction starts with delays at commit.afterTs / write.afterVlog / commit.beforeDone / readts.beforeWait, monitored through hooks: " +
 		"no read timestamp may be granted while a commit at or below it is in flight (in-flight set maintained inside the oracle's lock), and the read oracle confirms that " +
-		"every transaction sees all commits <= its read timestamp; (iii) race-detector reports in y/watermark.go or the oracle are violations; distinct = configurations in which the " +
+		"every transaction sees all commits <= its read timestamp; (iv) stop behaviour: after the closer was signalled (oracle.Stop in Close) Begin/Done/WaitForMark " +
+		"must not block (more marks than the channel holds are sent), and transactions started by 8 goroutines while Close completes must all return; (iii) race-detector reports in y/watermark.go or the oracle are violations; distinct = configurations in which the " +
 		"monitored window was actually observed open")
 	for i := 0; i < c.Pick(40, 400); i++ {
 		watermarkRound(c, i, 4+i%13, c.Pick(150, 400), i%2 == 1)
@@ -187,6 +315,12 @@ func C34(c *core.Ctx) {
 	// (ii)
 	work := c.WorkDir()
 	defer os.RemoveAll(work)
+	for i, v0 := 0, c.Violations(); i < c.Pick(30, 300) && c.Violations() == v0; i++ {
+		watermarkStopRound(c, i) // a stuck round costs 20 s: stop at the first one
+	}
+	for i, v0 := 0, c.Violations(); i < c.Pick(30, 300) && c.Violations() == v0; i++ {
+		closeRaceRound(c, work, i)
+	}
 	idx := 0
 	delays := sched.Config{Prob: 0.2, MaxSleep: 2 * time.Millisecond, ProbBy: map[string]float64{"commit.afterTs": 0.3, "commit.beforeDone": 0.3, "write.afterVlog": 0.3,
 		"write.beforeAck": 0.2, "readts.beforeWait": 0.3, "commit.afterSend": 0.2}}
